@@ -5,7 +5,6 @@ import datetime as dt
 import functools
 import locale
 import logging
-import math
 import re
 import time
 
@@ -827,7 +826,8 @@ class TrigTime:
                 start_str, period_str = match2[1].strip(), match2[2].strip()
                 start, fixed_date_start = await cls.parse_date_time(start_str, 0, now, startup_time)
                 period = parse_time_offset(period_str)
-                if period <= 0:
+                period_td = dt.timedelta(seconds=period)
+                if period_td <= dt.timedelta(0):
                     _LOGGER.error("Invalid non-positive period %s in period(): %s", period, time_spec)
                     continue
 
@@ -836,8 +836,8 @@ class TrigTime:
                     if (now < start or startup) and (next_time is None or start < next_time):
                         next_time_adj = next_time = start
                     if now >= start and not startup:
-                        secs = period * (1.0 + math.floor((now - start).total_seconds() / period))
-                        this_t = start + dt.timedelta(seconds=secs)
+                        # exact (microsecond) arithmetic: float division can land on the previous tick
+                        this_t = start + ((now - start) // period_td + 1) * period_td
                         if now < this_t and (next_time is None or this_t < next_time):
                             next_time_adj = next_time = this_t
                     continue
@@ -856,8 +856,7 @@ class TrigTime:
                         if next_time is None or start < next_time:
                             next_time_adj = next_time = start
                         break
-                    secs = period * (1.0 + math.floor((now - start).total_seconds() / period))
-                    this_t = start + dt.timedelta(seconds=secs)
+                    this_t = start + ((now - start) // period_td + 1) * period_td
                     if start <= this_t <= end:
                         if next_time is None or this_t < next_time:
                             next_time_adj = next_time = this_t
